@@ -173,14 +173,19 @@ theorem C04_history_status_path (env : Env) (t : TxId) (is : List Ibtp) (l : Led
       have hb' : t.index ≤ reqCounter r.1 t.frm t.to := by
         rw [hcnt]; split <;> omega
       change ∃ st', recStatus (runIbtps env r.1 rest) t = some st' ∧ Reach st st'
-      rcases handleIBTP_rec hck hh t with h1 | ⟨hreq, ht⟩ | ⟨_, s0, s1, hs0, hstep, hs1⟩
+      rcases handleIBTP_rec hck hh t with h1 | ⟨hreq, ht, hnn⟩ | ⟨ev, s0, s1, hs0, hstep, hs1⟩
       · exact ih r.1 st hd' hb' (by rw [recStatus_congr h1]; exact hs)
       · -- a request with the very id `t`: its index would have to be counter + 1, but the counter has passed it
+        -- (and a notice that finds no record is not this one: `t` has a record)
         exfalso
+        have hn : ck.notice = false := by
+          rcases hnn with hnn | hnn
+          · exact hnn
+          · unfold recStatus at hs; rw [hnn] at hs; cases hs
         have hdst : ck.dst = t.to := by rw [ht]
         have hsrc : ck.src = t.frm := by rw [ht]
-        have hnb : ck.isBatch = false := orderedDst_not_batch (by rw [hdst]; exact hd) hck hreq
-        have hidx := C02_accept_needs_next_index env l i ck hck hreq hnb
+        have hnb : ck.isBatch = false := orderedDst_not_batch (by rw [hdst]; exact hd) hck hreq hn
+        have hidx := C02_accept_needs_next_index env l i ck hck hreq hn hnb
         have : t.index = i.index := by rw [ht]
         unfold reqCounter at hb
         rw [← hsrc, ← hdst] at hb
@@ -192,8 +197,8 @@ theorem C04_history_status_path (env : Env) (t : TxId) (is : List Ibtp) (l : Led
         -- prepend the step st → s1 to the path s1 ⇝ st'
         clear h2 ih
         induction h3 with
-        | refl => exact Reach.step _ (Reach.refl _) hstep
-        | step ev _ hs' ih' => exact Reach.step ev ih' hs'
+        | refl => exact Reach.step ev (Reach.refl _) hstep
+        | step ev' _ hs' ih' => exact Reach.step ev' ih' hs'
 
 open Bxh.Props.C02 in
 /-- **SUCCESS, FAILURE and ROLLBACK are final over every history**: no sequence of IBTPs changes a record that
@@ -208,12 +213,12 @@ open Bxh.Props.C02 in
 /-- the counter hypothesis holds for every record the contract creates: right after a request of an
 index-checked pair has been accepted, the pair's counter equals the request's index -/
 theorem C04_created_record_is_bounded (env : Env) (l : Led) (i : Ibtp) (ck : Checked) (r : Led × String)
-    (hck : checkIBTP env l i = .ok ck) (h : handleIBTP env l i = .ok r) (hreq : i.typ.isRequest = true)
+    (hck : checkIBTP env l i = .ok ck) (h : handleIBTP env l i = .ok r) (hreq : i.typ.isRequest = true) (hn : ck.notice = false)
     (hd : OrderedDst env l ck.dst) : i.index ≤ reqCounter r.1 ck.src ck.dst := by
-  have hnb : ck.isBatch = false := orderedDst_not_batch hd hck hreq
-  have hidx := C02_accept_needs_next_index env l i ck hck hreq hnb
+  have hnb : ck.isBatch = false := orderedDst_not_batch hd hck hreq hn
+  have hidx := C02_accept_needs_next_index env l i ck hck hreq hn hnb
   rw [handleIBTP_reqCounter hck h ck.src ck.dst]
-  simp only [hreq, and_self, if_true]
+  simp only [hreq, hn, Bool.not_false, Bool.and_self, and_self, if_true]
   unfold reqCounter
   omega
 
@@ -296,17 +301,21 @@ theorem C04_tx_final_stays (env : Env) (l : Led) (tx : Tx) (inv : Option String)
       rw [recStatus_congr (h6 _)]
       obtain ⟨ck, hck⟩ := handleIBTP_ok_checked h5
       have hs0 : recStatus (txStart l) t = some st := hs
-      rcases handleIBTP_rec hck h5 t with e1 | ⟨hreq, ht⟩ | ⟨_, s0, s1, hs1, hstep, _⟩
+      rcases handleIBTP_rec hck h5 t with e1 | ⟨hreq, ht, hnn⟩ | ⟨_, s0, s1, hs1, hstep, _⟩
       · rw [recStatus_congr e1]; exact hs0
       · -- a request with the very id `t`: its index would have to be counter + 1, but the counter has passed it
         exfalso
+        have hn : ck.notice = false := by
+          rcases hnn with hnn | hnn
+          · exact hnn
+          · unfold recStatus at hs0; rw [hnn] at hs0; cases hs0
         have hd' : OrderedDst env' (txStart l) t.to := by
           obtain ⟨a1, a2, a3, a4⟩ := hd
           exact orderedDst_env h2 h3 ⟨a1, a2, a3, fun sv hsv => a4 sv hsv⟩
         have hdst : ck.dst = t.to := by rw [ht]
         have hsrc : ck.src = t.frm := by rw [ht]
-        have hnb : ck.isBatch = false := orderedDst_not_batch (by rw [hdst]; exact hd') hck hreq
-        have hidx := C02_accept_needs_next_index env' (txStart l) i ck hck hreq hnb
+        have hnb : ck.isBatch = false := orderedDst_not_batch (by rw [hdst]; exact hd') hck hreq hn
+        have hidx := C02_accept_needs_next_index env' (txStart l) i ck hck hreq hn hnb
         have hi : t.index = i.index := by rw [ht]
         have hb0 : t.index ≤ reqCounter (txStart l) t.frm t.to := hb
         unfold reqCounter at hb0
@@ -423,5 +432,60 @@ theorem C04_block_history_final_stays (cfg : Cfg) (blocks : List (List (Tx × Bo
         have := hnl (k + 1) (by simp; omega)
         simpa [runBlocks] using this)
     simpa [runBlocks] using this
+
+/-! ### between two BitXHubs: the destination hub's notice -/
+
+/-- what a notice names: the event of the (regenerated) `txStatus2EventM` -/
+theorem noticeEvent_values :
+    noticeEvent .beginFailure = "dst_failure" ∧ noticeEvent .beginRollback = "dst_rollback" ∧
+    noticeEvent .none = "" ∧ noticeEvent .other = "" := by decide
+
+/-- table fact (all 5 × 6 × 6 combinations, by `decide`): a step by the event a notice names starts at BEGIN and ends at FAILURE
+(begin-failure notice) or ROLLBACK (rollback notice) -/
+theorem notice_step (x : Ext) (st st' : Status) (h : txFsmStep st (noticeEvent x) = some st') :
+    st = .begin ∧ ((x = .beginFailure ∧ st' = .failure) ∨ (x = .beginRollback ∧ st' = .rollback)) := by
+  cases x <;> cases st <;> cases st' <;> revert h <;> decide
+
+/-- **the notice moves a record only from BEGIN, to FAILURE (begin-failure notice) or ROLLBACK (rollback notice)** — the two
+extra transitions the property names —, and keeps the recorded deadline: `BeginInterBitXHub` on an existing record (since the
+`fix:` commit "the destination hub's notice ends an inter-BitXHub transaction for the timeout mechanism too" the stored record
+is read; before, the step started from an empty record: any status was taken for BEGIN and the deadline was lost) -/
+theorem C04_notice_only_from_begin (l : Led) (cur : Nat) (id : TxId) (t : Nat) (x : Ext) (f : Bool) (r : Rec)
+    (res : Led × StatusChange) (hrec : l.getS (.txRec id) = some (.trec r))
+    (h : tmBeginInter l cur id t x f = .ok res) :
+    r.status = .begin ∧ res.2.prev = some .begin ∧
+    ((x = .beginFailure ∧ res.2.cur = .failure) ∨ (x = .beginRollback ∧ res.2.cur = .rollback)) ∧
+    res.1.getS (.txRec id) = some (.trec { height := r.height, status := res.2.cur }) := by
+  unfold tmBeginInter at h
+  simp only [hrec] at h
+  split at h
+  · cases h
+  · split at h
+    · cases h
+    · rename_i st' hst
+      cases h
+      obtain ⟨h1, h2⟩ := notice_step x r.status st' hst
+      exact ⟨h1, by simp [h1], h2, by simp⟩
+
+/-- and it is accepted whenever the record is at BEGIN -/
+theorem C04_notice_accepted_at_begin (l : Led) (cur : Nat) (id : TxId) (t : Nat) (x : Ext) (f : Bool) (r : Rec)
+    (hrec : l.getS (.txRec id) = some (.trec r)) (hb : r.status = .begin) (hx : x.isNotice = true) :
+    ∃ res, tmBeginInter l cur id t x f = .ok res := by
+  unfold tmBeginInter
+  simp only [hrec, hb]
+  have h1 : txFsmStep Status.begin (noticeEvent .beginFailure) = some .failure := by decide
+  have h2 : txFsmStep Status.begin (noticeEvent .beginRollback) = some .rollback := by decide
+  cases x <;> simp [Ext.isNotice] at hx
+  · exact ⟨_, by simp [h1]; rfl⟩
+  · exact ⟨_, by simp [h2]; rfl⟩
+
+/-- non-vacuity, and the defect the fix removed: on a record that timed out (BEGIN_ROLLBACK, deadline 9) the begin-failure
+notice is refused; started from an empty record — as the code did — the same notice went BEGIN → FAILURE and the written
+record carried no deadline -/
+example :
+    let id : TxId := ⟨⟨"1356", "c1", "s1"⟩, ⟨"9999", "c5", "s1"⟩, 1⟩
+    let l : Led := { store := [(.txRec id, .trec { height := 9, status := .beginRollback })] }
+    (tmBeginInter l 10 id 3 .beginFailure false).toOption.isNone = true ∧
+    txFsmStep ({ height := 0, status := .begin } : Rec).status (noticeEvent .beginFailure) = some .failure := by decide
 
 end Bxh.Props.C04
